@@ -61,9 +61,11 @@ func (x *rootGuardian) Receive(ctx *ReceiveContext) {
 	case *PanicSignal:
 		x.handlePanicSignal(ctx)
 	case *Terminated:
+		// control messages overtake PostStart (system mailbox first): do not
+		// rely on the fields PostStart sets
 		actorID := msg.ActorPath()
-		if x.pid.logger.Enabled(log.DebugLevel) {
-			x.pid.logger.Debugf("actor=%s terminated", actorID)
+		if logger := ctx.Logger(); logger.Enabled(log.DebugLevel) {
+			logger.Debugf("actor=%s terminated", actorID)
 		}
 		// TODO: decide what to do the actor
 	default:
@@ -84,8 +86,8 @@ func (x *rootGuardian) handlePanicSignal(ctx *ReceiveContext) {
 	systemName := ctx.ActorSystem().Name()
 	actorName := ctx.Sender().Name()
 	if !ctx.ActorSystem().isStopping() && isSystemName(actorName) {
-		if x.logger.Enabled(log.WarningLevel) {
-			x.logger.Warnf("actor=%s system=%s is down, going to shutdown. Check logs and fix any potential issue", actorName, systemName)
+		if logger := ctx.Logger(); logger.Enabled(log.WarningLevel) {
+			logger.Warnf("actor=%s system=%s is down, going to shutdown. Check logs and fix any potential issue", actorName, systemName)
 		}
 
 		// blindly shutdown the actor system. No need to check any error
